@@ -119,6 +119,9 @@ def run(pid, tier):
             a = bp["args"]
             ev.append(dict(ev="Bump", b=nums(a["biofuel"]), f=nums(a["feed"]), maxB=nums(a["max_biofuel"]), maxF=nums(a["max_feed"]),
                            b2=nums(bp["out_biofuel"]), f2=nums(bp["out_feed"]), dom=True))
+        if bp and 3 in by_round:
+            s3 = by_round[3]["series"]
+            ev.append(dict(ev="Charged", b2=nums(bp["out_biofuel"]), f2=nums(bp["out_feed"]), cb=nums(s3["biofuel"]), cf=nums(s3["feed"])))
         if ev:
             traces.append(dict(hdr=dict(src="corpus", cc=run_["job"]["cc"], preset=run_["job"]["preset"]), ev=ev))
     fails = tracecheck.validate("Trace_Handoff", "Trace_Handoff.cfg", traces, out)
